@@ -285,30 +285,53 @@ func runVerbDispatch(c *core.Ctx) {
 		}
 		return "", false
 	}
-	// the if statement whose else/then does io.Copy (fast path) vs Fprintf (formatted)
+	// the if statement that chooses between io.Copy (fast path) and Fprintf
+	// (formatted): either if/else, or an if whose body returns followed by the
+	// other path in the rest of the function
+	callsNamed := func(nodes []ast.Stmt, name string) bool {
+		found := false
+		for _, st := range nodes {
+			ast.Inspect(st, func(nn ast.Node) bool {
+				if call, ok := nn.(*ast.CallExpr); ok {
+					if se, ok := call.Fun.(*ast.SelectorExpr); ok && se.Sel.Name == name {
+						found = true
+					}
+				}
+				return true
+			})
+		}
+		return found
+	}
 	var ifs *ast.IfStmt
-	ast.Inspect(fd2.Body, func(nn ast.Node) bool {
-		if s, ok := nn.(*ast.IfStmt); ok && s.Else != nil {
-			src := types.ExprString(s.Cond)
-			if strings.Contains(src, "direct") || strings.Contains(src, "okP") || strings.Contains(src, "okW") {
-				ifs = s
+	thenFormatted := false
+	for i, st := range fd2.Body.List {
+		s, ok := st.(*ast.IfStmt)
+		if !ok || s.Init != nil {
+			continue
+		}
+		var other []ast.Stmt
+		if s.Else != nil {
+			other = []ast.Stmt{s.Else}
+		} else if n := len(s.Body.List); n > 0 {
+			if _, isRet := s.Body.List[n-1].(*ast.ReturnStmt); isRet {
+				other = fd2.Body.List[i+1:]
 			}
 		}
-		return true
-	})
+		if other == nil {
+			continue
+		}
+		tf, tc := callsNamed(s.Body.List, "Fprintf"), callsNamed(s.Body.List, "Copy")
+		of, oc := callsNamed(other, "Fprintf"), callsNamed(other, "Copy")
+		if tf && !tc && oc && !of {
+			ifs, thenFormatted = s, true
+		} else if tc && !tf && of && !oc {
+			ifs, thenFormatted = s, false
+		}
+	}
 	if ifs == nil {
-		c.Undecided("errbase.(*state).finishDisplay", fd2.Pos(), "the width/precision path choice is not an if/else on the Width()/Precision() results")
+		c.Undecided("errbase.(*state).finishDisplay", fd2.Pos(), "the width/precision path choice is not a two-way choice between io.Copy and Fprintf")
 		return
 	}
-	thenFormatted := false
-	ast.Inspect(ifs.Body, func(nn ast.Node) bool {
-		if call, ok := nn.(*ast.CallExpr); ok {
-			if se, ok := call.Fun.(*ast.SelectorExpr); ok && se.Sel.Name == "Fprintf" {
-				thenFormatted = true
-			}
-		}
-		return true
-	})
 	n2, bad2 := 0, 0
 	for _, verb := range []rune{'v', 'q'} {
 		for mask := 0; mask < 16; mask++ {
